@@ -16,6 +16,9 @@ def _child(task, build):
         prog, db = build()
         c = db.contracts[q][ci]
         fr = verify_function(prog, db, q, c, case=opts.get('case'))
+        kinds = opts.get('kinds')
+        if kinds:
+            fr.obligations = [o for o in fr.obligations if o.expect != 'unsat' or any(o.meta['kind'].startswith(k) for k in kinds)]
         om = cex.make_on_model(fr.params, fr.pre_heap)
         res = smt.discharge(fr.obligations, timeout=opts['timeout'], seed=opts['seed'], on_model=om, retry_timeout=opts['retry'],
                             procs=opts['procs'], use_cvc5=opts.get('cvc5', True))
